@@ -105,6 +105,7 @@ type Flow struct {
 	info *types.Info
 	g    *cfg.CFG
 	tags map[ast.Expr]ast.Expr // case expr of a tagged switch -> tag
+	comm map[ast.Node]bool     // comm statements of select clauses (go/cfg hoists them before the select)
 
 	// results
 	At      map[ast.Node]Facts // facts just before a CallExpr is invoked / at a ReturnStmt (after its operands) / at a DeferStmt, GoStmt, SendStmt, receive
@@ -155,6 +156,13 @@ func (m *Flow) Run() *Flow {
 		}
 		return true
 	})
+	m.comm = map[ast.Node]bool{}
+	ast.Inspect(m.FB.Body, func(n ast.Node) bool {
+		if cc, ok := n.(*ast.CommClause); ok && cc.Comm != nil {
+			m.comm[cc.Comm] = true
+		}
+		return true
+	})
 	m.g = cfg.New(m.FB.Body, mayReturn(m.info))
 	n := len(m.g.Blocks)
 	in := make([]Facts, n)
@@ -183,6 +191,7 @@ func (m *Flow) Run() *Flow {
 		if st == nil {
 			continue
 		}
+		m.selectCase(b, st, false)
 		var cond ast.Expr
 		for i, node := range b.Nodes {
 			if i == len(b.Nodes)-1 && len(b.Succs) == 2 {
@@ -228,6 +237,7 @@ func (m *Flow) Run() *Flow {
 		if st == nil {
 			continue
 		}
+		m.selectCase(b, st, true)
 		for _, node := range b.Nodes {
 			m.transfer(node, st, true)
 		}
@@ -282,7 +292,58 @@ func (m *Flow) record(n ast.Node, st Facts, rec bool) {
 	}
 }
 
+// selectCase applies the communication of a select clause at the start of its body block.
+func (m *Flow) selectCase(b *cfg.Block, st Facts, rec bool) {
+	if b.Kind != cfg.KindSelectCaseBody {
+		return
+	}
+	cc, ok := b.Stmt.(*ast.CommClause)
+	if !ok || cc.Comm == nil {
+		return
+	}
+	var recv *ast.UnaryExpr
+	switch s := cc.Comm.(type) {
+	case *ast.ExprStmt:
+		recv, _ = ast.Unparen(s.X).(*ast.UnaryExpr)
+	case *ast.AssignStmt:
+		if len(s.Rhs) == 1 {
+			recv, _ = ast.Unparen(s.Rhs[0]).(*ast.UnaryExpr)
+		}
+	case *ast.SendStmt:
+		m.record(s, st, rec)
+	}
+	if recv != nil && recv.Op == token.ARROW {
+		m.record(recv, st, rec)
+		if m.RecvLabel != nil {
+			if l := m.RecvLabel(recv); l != "" {
+				st["called:"+l] = true
+			}
+		}
+	}
+}
+
 func (m *Flow) transfer(node ast.Node, st Facts, rec bool) {
+	if m.comm[node] {
+		// hoisted comm statement of a select: only the channel operands are evaluated here
+		switch s := node.(type) {
+		case *ast.ExprStmt:
+			if u, ok := ast.Unparen(s.X).(*ast.UnaryExpr); ok && u.Op == token.ARROW {
+				m.calls(u.X, st, rec)
+				return
+			}
+		case *ast.AssignStmt:
+			if len(s.Rhs) == 1 {
+				if u, ok := ast.Unparen(s.Rhs[0]).(*ast.UnaryExpr); ok && u.Op == token.ARROW {
+					m.calls(u.X, st, rec)
+					return
+				}
+			}
+		case *ast.SendStmt:
+			m.calls(s.Chan, st, rec)
+			m.calls(s.Value, st, rec)
+			return
+		}
+	}
 	switch s := node.(type) {
 	case *ast.DeferStmt:
 		m.calls(s.Call.Fun, st, rec)
